@@ -274,6 +274,8 @@ def check_many_sources(case, stats):
             for se in gh.SourceEvents(paths).enum():
                 for env in ev.enum(se):
                     count += 1
+                    if not isinstance(env, dict) or list(env) != ["pickle"]:
+                        raise Violation(case, "with options (source, ast, pickles) = (False, False, True) the stream yields an envelope %r" % (sorted(env) if isinstance(env, dict) else env,))
                     names.append(env["pickle"]["uri"])
         finally:
             resource.setrlimit(resource.RLIMIT_NOFILE, (soft, hard))
